@@ -64,7 +64,7 @@ def diff(a, b, path=""):
         if ka != kb:
             return (path or "<root>", "keys %r" % ka, "keys %r" % kb)
         for x, y in zip(ra, rb):
-            p = (path + "." if path else "") + x[0]
+            p = (path + "." if path else "") + (x[0] if isinstance(x[0], str) else repr(x[0]))
             if x[2] != y[2]:
                 return (p, "user-defined=%r" % x[2], "user-defined=%r" % y[2])
             d = diff(x[1], y[1], p)
